@@ -49,10 +49,15 @@ def perm_leaf(env):
                 return bool(env["bits"] & {"is_executable": 4, "is_readable": 1, "is_writable": 2}[ls])
         if e[0] == "field" and e[2] in ("offset", "size") and e[2] in env:
             return (env[e[2]], "usize")
-        if e[0] == "field" and e[2] == "start_address" and "S" in env:
-            return (env["S"], "usize")
-        if e[0] == "field" and e[2] == "end_address" and "E" in env:
-            return (env["E"], "usize")
+        if e[0] == "field" and e[2] in ("start_address", "end_address", "size") and "S" in env:
+            sysr = core(e[1])[0] == "field" and core(e[1])[2] == "system_mapping_info"
+            if e[2] == "end_address":
+                return (env["E"], "usize")
+            if e[2] == "start_address":
+                # the module's own (biased, gap-extended) range is a different thing from the range the kernel reported
+                return (env["S"] if sysr else env.get("BS", env["S"]), "usize")
+            if e[2] == "size" and "BZ" in env:
+                return (env["BZ"], "usize")
         if e == ("param", 2) and "A" in env:
             return (env["A"], "usize")
         if e[0] == "discr" and "discr" in env:
@@ -95,7 +100,8 @@ def _contains_address(ctx, truth):
     bad = []
     for S, Z in ((0, 1), (0x1000, 0x1000), (0x7fff0000, 0x2000)):
         for A in {0, max(S - 1, 0), S, S + 1, S + Z - 1, S + Z, S + Z + 1, ipe.M64}:
-            if truth(b[0], perm_leaf({"bits": 0, "S": S, "E": S + Z, "A": A})) != (S <= A < S + Z):
+            # module range [BS, BS+BZ) differs from the system range at both ends (bias below, folded reserved gap above)
+            if truth(b[0], perm_leaf({"bits": 0, "S": S, "E": S + Z, "A": A, "BS": max(S - 1, 0), "BZ": Z + 3})) != (S <= A < S + Z):
                 bad.append((hex(S), hex(S + Z), hex(A)))
     return (not bad, "contains_address(a) <=> system start <= a < system end (boundary points)", "contains_address differs from start <= a < end at (start, end, a) = %s" % bad[:3], b[0])
 
